@@ -272,6 +272,22 @@ func (c *Ctx) ruleErrorDisciplinePkgs(rule string, pkgs []string, tolerated map[
 					}
 					continue
 				}
+				// a helper new on this tree that only hands on the error of calls tolerated here (the pay call moved
+				// into payQuote(): its error is the pay call's error)
+				if g := s.Call.Common().StaticCallee(); g != nil && g.Blocks != nil && c.P.IsNewFunc(g) {
+					names := tailErrorCallees(c, g)
+					allTol := len(names) > 0
+					for _, nm := range names {
+						if _, ok := tolerated[fk+"|"+nm]; !ok {
+							allTol = false
+						} else {
+							used[fk+"|"+nm] = true
+						}
+					}
+					if allTol {
+						continue
+					}
+				}
 				if _, dup := bad[s.Callee]; !dup {
 					bad[s.Callee] = s
 				}
@@ -501,4 +517,51 @@ func (c *Ctx) touchesState(fn *ssa.Function, depth int, seen map[*ssa.Function]b
 		}
 	}
 	return false
+}
+
+// tailErrorCallees: when every return of g takes its error directly from a call made in g (`return f(x)`,
+// `r, err := f(x); return r, err`), the names of those calls; nil otherwise.
+func tailErrorCallees(c *Ctx, g *ssa.Function) []string {
+	var names []string
+	for _, r := range Returns(g) {
+		n := len(r.Results)
+		if n == 0 {
+			return nil
+		}
+		var call *ssa.Call
+		switch x := r.Results[n-1].(type) {
+		case *ssa.Extract:
+			call, _ = x.Tuple.(*ssa.Call)
+		case *ssa.Call:
+			call = x
+		}
+		if call == nil {
+			return nil
+		}
+		names = append(names, c.P.Describe(call).Name)
+	}
+	return names
+}
+
+// tailErrorCalls: the calls whose error every return of g hands on directly; nil when some return does not.
+func tailErrorCalls(g *ssa.Function) []*ssa.Call {
+	var out []*ssa.Call
+	for _, r := range Returns(g) {
+		n := len(r.Results)
+		if n == 0 {
+			return nil
+		}
+		var call *ssa.Call
+		switch x := r.Results[n-1].(type) {
+		case *ssa.Extract:
+			call, _ = x.Tuple.(*ssa.Call)
+		case *ssa.Call:
+			call = x
+		}
+		if call == nil {
+			return nil
+		}
+		out = append(out, call)
+	}
+	return out
 }
